@@ -747,3 +747,28 @@ theorem compress_nodeSize (h : HG) (hc : HG.Cons h) (chi : Nat) (es : List Ix)
       rw [← mem_toSet (h.getEdge e) k, ← mem_toSet (h.getEdge e') k, h1, h2]
 
 end Cotengra.C20
+
+namespace Cotengra.C20
+open Cotengra Cotengra.HGu
+
+/-! ## non-vacuity -/
+
+/-- `abc,bcd,da->` : the bonds `b,c` between tensors 0 and 1 are parallel; after the first
+    contraction `a,d` become parallel (merged by the early compression) -/
+def mbNet : Net := { inputs := [[0, 1, 2], [1, 2, 3], [3, 0]], output := [], sizes := [(0, 2), (1, 2), (2, 2), (3, 2)] }
+
+/-- uncapped run (early compression): write = 20 (inputs) + 4 + 1, max_size = 8 (an input) -/
+example : ((HG.compressedStats mbNet.inputs mbNet.output mbNet.sizes 1000 false [(0, 1), (3, 2)]).map
+    fun st => (st.2.write, st.2.maxSize, st.2.flops, st.2.peakSize)) = some (25, 8, 20, 20) := by decide
+/-- the early compression after step 1 merged `a,d` into `a` with size 4 -/
+example : ((HG.compressedStats mbNet.inputs mbNet.output mbNet.sizes 1000 false [(0, 1)]).map
+    fun st => (st.1.nodes, st.1.size 0)) = some ([(2, [0]), (3, [0])], 4) := by decide
+/-- capped run: same shapes, `write`/`max_size` not larger (here equal) -/
+example : ((HG.compressedStats mbNet.inputs mbNet.output mbNet.sizes 2 true [(0, 1), (3, 2)]).map
+    fun st => (st.2.write, st.2.maxSize)) = some (25, 8) := by decide
+/-- the hypotheses of `compress_nodeSize` are met by the initial hypergraph of the example: the
+    group `{b, c}` has product 4 -/
+example : (HG.ofInputs mbNet.inputs mbNet.output mbNet.sizes).groupByIncidence [1, 2] = [([0, 1], [1, 2])] ∧
+    (HG.ofInputs mbNet.inputs mbNet.output mbNet.sizes).edgesSize [1, 2] = 4 := by decide
+
+end Cotengra.C20
